@@ -7,7 +7,7 @@ import shutil
 import sys
 
 sys.path.insert(0, os.path.dirname(os.path.abspath(__file__)))
-from common import XSV, ToolError, build_harness, scratch, sh
+from common import XSV, ToolError, build_harness, build_xs_bin, scratch, sh
 
 
 def main():
@@ -16,12 +16,13 @@ def main():
     build_harness()
     d = scratch("replay")
     try:
-        if g in ("store", "http"):
+        if g in ("store", "http", "cli"):
             from groups import store
             inp = os.path.join(d, "beh.ndjson")
             open(inp, "w").write(json.dumps(rp["behaviour"]) + "\n")
             sh([XSV, "store-replay", "--in", inp, "--out", os.path.join(d, "trace"), "--jobs", "1", "--probes", "3"]
-               + (["--http"] if g == "http" else []), env={"XSV_SCRATCH": d})
+               + (["--http"] if g in ("http", "cli") else []),
+               env=dict({"XSV_SCRATCH": d}, **({"XSV_CLI": build_xs_bin()} if g == "cli" else {})))
             viols, verdict, _ = store.validate(os.path.join(d, "trace"))
         elif g == "conc":
             from groups import conc
